@@ -353,3 +353,27 @@ PROPS["C10"] = dict(
         technique="model-based property testing (rapid) of paging histories against a reference sequence",
     ),
 )
+
+PROPS["C11"] = dict(
+    pkg="c11",
+    level="exploration",
+    rule=("0..5 synthetic sources (package-internal constructor) of 0..12 tagged items with timestamps from ten instants (ties "
+          "forced), missing timestamps, sorted and unsorted runs, failure items, sources that are absent or that "
+          "signal exhaustion only on the following call; request programs of 1..12 steps (n in 0..9) following "
+          "the returned continuation, each step also asked twice and, for 'again' steps, asked for a different amount without "
+          "advancing. Oracle: reference k-way merge (latest head first, ties to the source listed first); every answer equals the next "
+          "chunk of the reference; repeated asks agree; at the end the continuation is empty or harvests to nothing, and a typed-nil "
+          "continuation (which the UI would call Harvest on) is a violation. Non-trivial: >= 2 non-empty sources and exhaustion inside "
+          "a request. Distinct = distinct (sources, program)."),
+    units=[
+        rapid("Prop", "TestProp", 40000, 2000000, config_toml=_NET),
+    ],
+    manifest=dict(
+        text=("Stateful property-based testing of the feed splicer against a reference k-way merge, chunk by chunk, including "
+              "re-asking (immutability) and the end-of-feed protocol used by the UI. Sampled."),
+        design_ref="DESIGN.md §3 C11",
+        note=("Trusted: the reference merge and the synthetic Container in harness/c11. Hook: package-internal shim "
+              "splicer.VerifNew (build tag verif, scratch copy only)."),
+        technique="model-based property testing (rapid) against a reference merge",
+    ),
+)
